@@ -3,7 +3,7 @@
 The three properties share the publication models (`Ca/RoaObjects.lean`, `Ca/Objects.lean`), the
 driver and the traces' format; they differ in the theorems (`Props/<ID>.lean`), in the oracle
 predicates the driver evaluates (`sysobjects <ID>`) and in the regimes they generate."""
-import concurrent.futures, re
+import concurrent.futures, re, shutil
 from pathlib import Path
 import vlib
 
@@ -113,6 +113,16 @@ def judge(ctx, stream, traces, extra_args_of=lambda tr: (), max_shrinks=2):
     return found
 
 
+def private_kmodel(ctx):
+    """Other checks may relink `kmodel` while this one runs: use a private copy of the driver."""
+    dst = ctx.work / "kmodel"
+    with vlib.Lock("lake"):
+        if vlib.KMODEL.exists():
+            shutil.copy2(vlib.KMODEL, dst)
+    if dst.exists():
+        vlib.KMODEL = dst
+
+
 def tolerant_ok(pid_list=("C01", "C03", "C14")):
     """The driver may skip the recorded finding `reissue-without-sync` in the always-due regimes only
     while that finding is recorded as open."""
@@ -125,6 +135,7 @@ def tolerant_ok(pid_list=("C01", "C03", "C14")):
 def run(ctx, regimes_quick, regimes_thorough, rule, assumptions):
     pid = ctx.pid
     vlib.prove(ctx, [f"KrillModel.Props.{pid}"])
+    private_kmodel(ctx)
     found = False
     if vlib.build_harness(ctx, ["system"]):
         regimes = regimes_quick if ctx.tier == "quick" else regimes_thorough
@@ -148,6 +159,7 @@ def run(ctx, regimes_quick, regimes_thorough, rule, assumptions):
 def replay(ctx, data):
     vlib.build_harness(ctx, ["system"])
     vlib.prove(ctx, [f"KrillModel.Props.{ctx.pid}"])
+    private_kmodel(ctx)
     if "ops" not in data:
         print("replay: this record names broken obligations, not an input:", data.get("failed_obligations"))
         return 1
